@@ -183,6 +183,9 @@ func genRun(r *sim.Rng, p *GPlan, faulty bool, odd bool) GRun {
 		}
 		run.StubCSRs = r.Range(0, 3)
 	}
+	if r.Bool(0.02) {
+		run.Handlers = []string{} // no handler configured at all: nothing may happen, all authentications failed
+	}
 	if r.Bool(0.45) {
 		run.Agent = pick(r, agentBehaviours)
 	}
